@@ -33,7 +33,7 @@ def gen_cases(rng, tier):
     cases = []
     n = 900 if tier == "quick" else 12000
     for _ in range(n):
-        kind = rng.choice(["early", "early", "soft", "fail", "hit", "hit"])
+        kind = rng.choice(["early", "early", "soft", "fail", "failc", "hit", "hit"])
         ttl = rng.choice([16, 32, 64])
         inner = rng.choice([t for t in (8, 16, 32) if t < ttl] or [8])
         d = {"kind": kind, "ttl": ttl, "inner": inner, "bg": rng.random() < 0.5, "hits": rng.randint(1, 4), "upd": rng.choice([0, 0, 1, 2, 3])}
@@ -63,6 +63,12 @@ def run_impl(case):
         if kind == "early": deco = cache.early(ttl=ttl, early_ttl=inner, background=case["bg"])
         elif kind == "soft": deco = cache.soft(ttl=ttl, soft_ttl=inner, exceptions=ExcA)
         elif kind == "fail": deco = cache.failover(ttl=ttl, exceptions=ExcA)
+        elif kind == "failc":
+            def cond(result, args, kwargs, key=None):
+                if result % 2 == 1:
+                    raise ExcA()           # the store condition itself fails with a listed exception
+                return True
+            deco = cache.failover(ttl=ttl, exceptions=ExcA, condition=cond)
         else: deco = cache.hit(ttl=ttl, cache_hits=case["hits"], update_after=case["upd"], background=case["bg"])
 
         @deco
@@ -142,6 +148,7 @@ def to_coq(case, obs):
     if k == "early": d = C("DEarly", Z(case["ttl"]), Z(case["inner"]), case["bg"])
     elif k == "soft": d = C("DSoft", Z(case["ttl"]), Z(case["inner"]))
     elif k == "fail": d = C("DFail", Z(case["ttl"]))
+    elif k == "failc": d = C("DFailC", Z(case["ttl"]))
     else: d = C("DHit", Z(case["ttl"]), Z(case["hits"]), Z(case["upd"]), case["bg"])
     h, o = [], []
     for op, t, what, i, res, act in obs["steps"]:
